@@ -3,7 +3,7 @@
    sumor map to the OCaml types and andb/orb are inlined; N, positive, Z, nat, ascii, string
    stay the extracted inductive types.  Extraction is never used to establish a theorem. *)
 Require Import LC.model.Prims LC.model.Tables LC.model.Board LC.model.Text LC.model.Fen
-  LC.model.San LC.model.Render LC.model.Game LC.spec.Chess.
+  LC.model.San LC.model.Render LC.model.Game LC.spec.Chess LC.spec.Sym.
 Require ExtrOcamlBasic.
 Extraction Language OCaml.
 Extraction "../oracle/model.ml"
@@ -24,4 +24,4 @@ Extraction "../oracle/model.ml"
   Game.game_from_board Game.game_step Game.history_string Game.as_pgn_unwrapped Game.from_pgn_tokens
   Game.position_counter Game.get_position_on_move Game.print_gstatus Game.san_list Game.print_rtag
   Chess.legal Chess.gen Chess.apply Chess.valid Chess.board_status Chess.checkers Chess.in_check Chess.perft
-  Chess.attackers Chess.king_sq.
+  Chess.attackers Chess.king_sq Sym.flip Sym.mirror.
